@@ -3,7 +3,8 @@
 // Conformance harness for property C19 (wire codec and framing).
 //
 // Reads the abstract case products enumerated by TLC from spec/Codec.tla (directory VERIF_IN:
-// cases_msg.ndjson, cases_wire.ndjson, cases_val.ndjson, cases_req.ndjson, cases_vc.ndjson, cases_fr.ndjson, cases_ar.ndjson),
+// cases_msg.ndjson, cases_wire.ndjson, cases_val.ndjson, cases_req.ndjson, cases_vc.ndjson, cases_fr.ndjson, cases_ar.ndjson,
+// cases_lt.ndjson, cases_lb.ndjson) and the plans enumerated by TLC from spec/CodecWrite.tla (cases_ww.ndjson),
 // concretises every case with seeded values, runs the REAL encode / decode / framing paths and
 // records, per case, which members survived (VERIF_OUT, ndjson) for the TLA+ monitor CodecMon.
 // Nothing is judged here: the harness only compares and reports.
@@ -25,6 +26,7 @@ import (
 	"os"
 	"path/filepath"
 	"reflect"
+	"runtime"
 	"sort"
 	"strconv"
 	"strings"
@@ -3063,6 +3065,780 @@ func c19RunFr(r *rand.Rand, c c19FrCase, tag string, mark func(frame []byte)) (o
 }
 
 // ---------------------------------------------------------------------------------------------
+// Table 11: k goroutines write through ONE newline-delimited connection (IOTransport / ioConn) whose
+// io.Writer is not atomic: it delivers every Write in pieces and parks before each piece until the
+// scheduler of the case grants it.  The scheduler follows a plan enumerated by TLC (spec/CodecWrite.tla):
+// a sequence of offers, each to one writer.  No sleeps: between two steps the scheduler waits until every
+// writer goroutine that has not returned is parked (at the gate, or wherever the connection makes it wait),
+// which it reads from the goroutine states of the runtime.
+
+type c19WwCase struct {
+	K      int     `json:"k"`
+	Chunks []int   `json:"chunks"`
+	Mix    string  `json:"mix"`
+	Cut    string  `json:"cut"`
+	Plan   []int   `json:"plan"`
+	Orders [][]int `json:"orders"`
+}
+
+type c19WwOut struct {
+	Errs    int    `json:"errs"`    // writers whose Write did not return nil (or did not return)
+	Frames  []int  `json:"frames"`  // per line of the stream: the writer whose message it is, 0 if nobody's
+	Peer    []int  `json:"peer"`    // the same for the messages a real ioConn reads from the stream
+	PeerEnd string `json:"peerEnd"` // eof | error
+}
+
+// c19GID returns the id of the calling goroutine.
+func c19GID() uint64 {
+	var b [64]byte
+	s := b[:runtime.Stack(b[:], false)]
+	s = bytes.TrimPrefix(s, []byte("goroutine "))
+	if i := bytes.IndexByte(s, ' '); i > 0 {
+		n, _ := strconv.ParseUint(string(s[:i]), 10, 64)
+		return n
+	}
+	return 0
+}
+
+var c19StackBuf = make([]byte, 1<<18)
+
+// c19GoStates returns the state of every goroutine ("chan receive", "sync.Mutex.Lock", "running", ...).
+func c19GoStates() map[uint64]string {
+	var dump []byte
+	for {
+		n := runtime.Stack(c19StackBuf, true)
+		if n < len(c19StackBuf) {
+			dump = c19StackBuf[:n]
+			break
+		}
+		c19StackBuf = make([]byte, 2*len(c19StackBuf))
+	}
+	out := map[uint64]string{}
+	for len(dump) > 0 {
+		line := dump
+		if i := bytes.IndexByte(dump, '\n'); i >= 0 {
+			line, dump = dump[:i], dump[i+1:]
+		} else {
+			dump = nil
+		}
+		if !bytes.HasPrefix(line, []byte("goroutine ")) || !bytes.HasSuffix(line, []byte("]:")) {
+			continue
+		}
+		rest := line[len("goroutine "):]
+		sp := bytes.IndexByte(rest, ' ')
+		lb := bytes.IndexByte(rest, '[')
+		if sp < 0 || lb < 0 {
+			continue
+		}
+		id, err := strconv.ParseUint(string(rest[:sp]), 10, 64)
+		if err != nil {
+			continue
+		}
+		st := rest[lb+1 : len(rest)-2]
+		if i := bytes.IndexByte(st, ','); i >= 0 {
+			st = st[:i]
+		}
+		out[id] = string(st)
+	}
+	return out
+}
+
+// c19Parked: the goroutine waits for another goroutine (it is neither running nor about to): on a channel,
+// in a select, or on a lock / condition of package sync.  Waits inside the runtime ("semacquire": a goroutine
+// that starts a garbage collection waits for the world semaphore, which runtime.Stack holds; "GC assist
+// wait", ...) pass by themselves and do not count.
+func c19Parked(state string) bool {
+	return strings.HasPrefix(state, "chan ") || strings.HasPrefix(state, "select") || strings.HasPrefix(state, "sync.")
+}
+
+type c19Park struct {
+	grant chan struct{}
+	ack   chan struct{}
+}
+
+// c19Gate is the io.Writer under the connection.  A Write by a registered writer goroutine is cut into
+// pieces; before each piece the goroutine parks until the scheduler grants the piece.
+type c19Gate struct {
+	mu     sync.Mutex
+	stream bytes.Buffer
+	gids   [4]atomic.Uint64           // writer -> its goroutine
+	at     [4]atomic.Pointer[c19Park] // writer -> where it is parked, waiting for a grant
+	pieces []int                      // writer -> pieces per Write (index 0 unused)
+	cut    string
+}
+
+func (g *c19Gate) Close() error { return nil }
+
+func (g *c19Gate) Write(p []byte) (int, error) {
+	gid, w := c19GID(), 0
+	for i := 1; i < len(g.gids); i++ {
+		if g.gids[i].Load() == gid {
+			w = i
+		}
+	}
+	if w == 0 { // not one of the writers of the case: passed on whole
+		g.mu.Lock()
+		g.stream.Write(p)
+		g.mu.Unlock()
+		return len(p), nil
+	}
+	for _, part := range c19Split(p, g.pieces[w], g.cut) {
+		pk := &c19Park{grant: make(chan struct{}), ack: make(chan struct{}, 1)}
+		g.at[w].Store(pk)
+		<-pk.grant
+		g.mu.Lock()
+		g.stream.Write(part)
+		g.mu.Unlock()
+		pk.ack <- struct{}{}
+	}
+	return len(p), nil
+}
+
+// c19Split cuts p into n pieces (fewer if p is too short).
+func c19Split(p []byte, n int, cut string) [][]byte {
+	if n > len(p) {
+		n = len(p)
+	}
+	if n <= 1 {
+		return [][]byte{p}
+	}
+	even := func(q []byte, m int) [][]byte {
+		var out [][]byte
+		for i := 0; i < m; i++ {
+			out = append(out, q[i*len(q)/m:(i+1)*len(q)/m])
+		}
+		return out
+	}
+	switch cut {
+	case "nl-alone": // the last byte (the line end) is a piece of its own
+		return append(even(p[:len(p)-1], n-1), p[len(p)-1:])
+	case "first-byte":
+		return append([][]byte{p[:1]}, even(p[1:], n-1)...)
+	}
+	return even(p, n)
+}
+
+type c19WwRun struct {
+	c       c19WwCase
+	gate    *c19Gate
+	conn    Connection
+	msgs    []c19Concrete // index 0 unused
+	started []bool
+	done    []atomic.Bool
+	errs    []error
+	stuck   string
+}
+
+// settle waits until every writer that was started and has not returned is parked: at the gate, or wherever
+// the connection makes it wait.  A writer that is parked somewhere else than at the gate has to be found
+// there twice in a row (a lock inside a library is held for a moment, the connection's for as long as
+// another writer is inside).
+func (s *c19WwRun) settle() bool {
+	deadline := time.Now().Add(10 * time.Second)
+	confirmed := 0
+	for {
+		var pending []int
+		for w := 1; w <= s.c.K; w++ { // the flags first, then the states
+			if s.started[w] && !s.done[w].Load() {
+				pending = append(pending, w)
+			}
+		}
+		if len(pending) == 0 {
+			return true
+		}
+		st := c19GoStates()
+		ok, elsewhere := true, false
+		for _, w := range pending {
+			if state, found := st[s.gate.gids[w].Load()]; !found || !c19Parked(state) {
+				ok = false
+				break
+			}
+			if s.gate.at[w].Load() == nil {
+				elsewhere = true
+			}
+		}
+		switch {
+		case ok && !elsewhere:
+			return true
+		case ok:
+			if confirmed++; confirmed >= 2 {
+				return true
+			}
+		default:
+			confirmed = 0
+		}
+		if time.Now().After(deadline) {
+			s.stuck = "a writer neither returned nor came to rest: " + s.states()
+			return false
+		}
+		runtime.Gosched()
+	}
+}
+
+// states describes where the writers are (for the detail log).
+func (s *c19WwRun) states() string {
+	st := c19GoStates()
+	var b strings.Builder
+	for w := 1; w <= s.c.K; w++ {
+		switch {
+		case !s.started[w]:
+			fmt.Fprintf(&b, "w%d not started; ", w)
+		case s.done[w].Load():
+			fmt.Fprintf(&b, "w%d returned; ", w)
+		default:
+			fmt.Fprintf(&b, "w%d [%s] at-gate=%v; ", w, st[s.gate.gids[w].Load()], s.gate.at[w].Load() != nil)
+		}
+	}
+	return b.String()
+}
+
+func (s *c19WwRun) start(w int) {
+	ready := make(chan struct{})
+	s.started[w] = true
+	go func() {
+		s.gate.gids[w].Store(c19GID())
+		close(ready)
+		var err error
+		func() {
+			defer func() {
+				if p := recover(); p != nil {
+					err = fmt.Errorf("panic: %v", p)
+				}
+			}()
+			err = s.conn.Write(context.Background(), s.msgs[w].msg)
+		}()
+		s.errs[w] = err
+		s.done[w].Store(true)
+	}()
+	<-ready
+}
+
+// grant lets writer w put one piece on the stream, if it is inside the underlying writer.
+func (s *c19WwRun) grant(w int) bool {
+	pk := s.gate.at[w].Swap(nil)
+	if pk == nil {
+		return false
+	}
+	close(pk.grant)
+	<-pk.ack
+	return true
+}
+
+func (s *c19WwRun) allDone() bool {
+	for w := 1; w <= s.c.K; w++ {
+		if !s.done[w].Load() {
+			return false
+		}
+	}
+	return true
+}
+
+func c19WwMsgCase(r *rand.Rand, mix string, w int) c19MsgCase {
+	kind := "call"
+	switch mix {
+	case "requests":
+		kind = []string{"call", "notif", "call"}[w-1]
+	case "responses":
+		kind = []string{"result", "errordata", "error"}[w-1]
+	case "mixed":
+		kind = []string{"call", "result", "notif"}[w-1]
+	}
+	c := c19MsgCase{Dir: "enc", Kind: kind, Method: "na", Payload: "absent", Framing: "ndjson",
+		ID: []string{"small", "str-ascii", "int>2^53"}[w-1], Flavor: c19Pick(r, "plain", "plain", "unicode", "newline", "ssetext")}
+	if r.IntN(40) == 0 {
+		c.Flavor = "large"
+	}
+	switch kind {
+	case "call", "notif":
+		c.Method, c.Payload = "std", c19Pick(r, "obj", "array", "nested", "meta", "content-text")
+		if kind == "notif" {
+			c.ID = "absent"
+		}
+	case "result", "errordata":
+		c.Payload = c19Pick(r, "obj", "nested", "content-text", "content-nested", "scalar", "list-empty")
+	}
+	return c
+}
+
+// c19WhoseMsg: the writer whose message m is (every member equal), 0 if nobody's.
+func c19WhoseMsg(msgs []c19Concrete, m jsonrpc.Message, err error) int {
+	if err != nil || m == nil {
+		return 0
+	}
+	v := c19ViewOfMsg(m)
+	for w := 1; w < len(msgs); w++ {
+		f := c19Compare(msgs[w].view, v)
+		if v.typ == msgs[w].view.typ && f.IDType && f.IDValue && f.Method && f.Params && f.Result && f.ErrCode && f.ErrMsg && f.ErrData {
+			return w
+		}
+	}
+	return 0
+}
+
+func c19RunWw(r *rand.Rand, c c19WwCase) (o c19WwOut, in, note string) {
+	o.Frames, o.Peer, o.PeerEnd = []int{}, []int{}, "eof"
+	s := &c19WwRun{c: c, gate: &c19Gate{pieces: append([]int{0}, c.Chunks...), cut: c.Cut}, msgs: make([]c19Concrete, c.K+1),
+		started: make([]bool, c.K+1), done: make([]atomic.Bool, c.K+1), errs: make([]error, c.K+1)}
+	for w := 1; w <= c.K; w++ {
+		s.msgs[w] = c19Concretise(r, c19WwMsgCase(r, c.Mix, w))
+		if b, err := jsonrpc.EncodeMessage(s.msgs[w].msg); err == nil {
+			in += fmt.Sprintf("w%d=%s ", w, c19Trunc(b))
+		}
+	}
+	pr, pw := io.Pipe() // nothing is ever received on this connection
+	conn, err := (&IOTransport{Reader: pr, Writer: s.gate}).Connect(context.Background())
+	if err != nil {
+		o.Errs = c.K
+		return o, in, "connect: " + err.Error()
+	}
+	s.conn = conn
+	defer func() {
+		conn.Close()
+		pw.Close()
+	}()
+	// the plan: the first offer to a writer lets it call Write, every further one lets its next piece through
+	for _, w := range c.Plan {
+		if !s.settle() {
+			break
+		}
+		if !s.started[w] {
+			s.start(w)
+		} else {
+			s.grant(w) // declined if w is not inside the underlying writer
+		}
+	}
+	// drain: everybody may finish
+	for s.stuck == "" {
+		if !s.settle() {
+			break
+		}
+		if s.allDone() {
+			break
+		}
+		granted := false
+		for w := 1; w <= c.K && !granted; w++ {
+			granted = s.grant(w)
+		}
+		if !granted {
+			s.stuck = "writers are waiting and none of them is inside the underlying writer: " + s.states()
+		}
+	}
+	for w := 1; w <= c.K; w++ {
+		if !s.done[w].Load() {
+			o.Errs++
+			note += fmt.Sprintf("w%d did not return; ", w)
+		} else if s.errs[w] != nil {
+			o.Errs++
+			note += fmt.Sprintf("w%d: %v; ", w, s.errs[w])
+		}
+	}
+	if s.stuck != "" {
+		note += s.stuck + "; "
+	}
+	s.gate.mu.Lock()
+	stream := append([]byte{}, s.gate.stream.Bytes()...)
+	s.gate.mu.Unlock()
+	// the stream line by line
+	for rest := stream; len(rest) > 0; {
+		line := rest
+		if i := bytes.IndexByte(rest, '\n'); i >= 0 {
+			line, rest = rest[:i], rest[i+1:]
+		} else {
+			rest = nil
+		}
+		var m jsonrpc.Message
+		var derr error
+		func() {
+			defer func() {
+				if p := recover(); p != nil {
+					derr = fmt.Errorf("panic: %v", p)
+				}
+			}()
+			m, derr = jsonrpc.DecodeMessage(line)
+		}()
+		o.Frames = append(o.Frames, c19WhoseMsg(s.msgs, m, derr))
+	}
+	// the stream as the SDK's own reader sees it
+	peer := c19NewIOConn(io.NopCloser(bytes.NewReader(stream)), c19NopW{})
+	defer peer.Close()
+	ctx, cancel := context.WithTimeout(context.Background(), c19FrLimit)
+	defer cancel()
+	for i := 0; i < 3*c.K+3; i++ {
+		m, rerr := peer.Read(ctx)
+		if rerr != nil {
+			if !errors.Is(rerr, io.EOF) {
+				o.PeerEnd = "error"
+				note += "peer: " + rerr.Error()
+			}
+			break
+		}
+		o.Peer = append(o.Peer, c19WhoseMsg(s.msgs, m, nil))
+	}
+	note += " stream=" + c19Trunc(stream)
+	return
+}
+
+// ---------------------------------------------------------------------------------------------
+// Table 9: a decoded message outlives the buffer it was decoded from.
+
+type c19LtCase struct {
+	Kind    string `json:"kind"`
+	ID      string `json:"id"`
+	Payload string `json:"payload"`
+	Path    string `json:"path"`
+	Reuse   string `json:"reuse"`
+}
+
+type c19LtOut struct {
+	Cls   string    `json:"cls"`
+	Later bool      `json:"later"`
+	Enc   bool      `json:"enc"`
+	F     c19Fields `json:"f"`
+	G     c19Fields `json:"g"`
+}
+
+// c19OneLine delivers one line for each call of Read, as a pipe does when the peer writes message by message.
+type c19OneLine struct {
+	lines [][]byte
+	cur   []byte
+}
+
+func (l *c19OneLine) Read(p []byte) (int, error) {
+	if len(l.cur) == 0 {
+		if len(l.lines) == 0 {
+			return 0, io.EOF
+		}
+		l.cur, l.lines = l.lines[0], l.lines[1:]
+	}
+	n := copy(p, l.cur)
+	l.cur = l.cur[n:]
+	return n, nil
+}
+
+func c19AllTrue(f c19Fields) bool {
+	return f.IDType && f.IDValue && f.Method && f.Params && f.Result && f.ErrCode && f.ErrMsg && f.ErrData
+}
+
+func c19RunLt(r *rand.Rand, c c19LtCase) (o c19LtOut, in, out string) {
+	mc := c19MsgCase{Dir: "dec", Kind: c.Kind, ID: c.ID, Method: "na", Payload: c.Payload, Framing: "ndjson",
+		Flavor: c19Pick(r, "plain", "unicode", "newline", "ssetext")}
+	if c.Kind == "call" || c.Kind == "notif" {
+		mc.Method = "std"
+	}
+	a, b := c19Concretise(r, mc), c19Concretise(r, mc)
+	in = c19Trunc(a.wire)
+	var mA, mB jsonrpc.Message
+	var errA, errB error
+	// further messages between A and B: enough to go through a reader's buffer several times
+	filler := func() [][]byte {
+		var ls [][]byte
+		for n, i := 0, 0; n < 20<<10; i++ {
+			x := c19Concretise(r, c19MsgCase{Dir: "dec", Kind: c19Pick(r, "call", "result", "errordata"), ID: c19Pick(r, "small", "str-ascii"), Method: "std",
+				Payload: c19Pick(r, "obj", "array", "content-text"), Flavor: "plain", Framing: "ndjson"})
+			ls = append(ls, x.wire)
+			n += len(x.wire)
+		}
+		return ls
+	}
+	switch c.Path {
+	case "decode", "batch":
+		wrap := func(w []byte) []byte {
+			if c.Path == "batch" {
+				return []byte("[" + string(w) + "," + string(c19SentinelWire(1)) + "]")
+			}
+			return w
+		}
+		decode := func(buf []byte) (jsonrpc.Message, error) {
+			if c.Path == "batch" {
+				msgs, _, err := c19ReadBatch(buf)
+				if err != nil || len(msgs) != 2 || !c19IsSentinel(msgs[1], 1) {
+					return nil, fmt.Errorf("batch of two not read: %v", err)
+				}
+				return msgs[0], nil
+			}
+			return jsonrpc.DecodeMessage(buf)
+		}
+		wa, wb := wrap(a.wire), wrap(b.wire)
+		buf := make([]byte, 0, max(len(wa), len(wb))+64)
+		buf = append(buf[:0], wa...)
+		mA, errA = decode(buf)
+		switch c.Reuse {
+		case "next":
+			buf = append(buf[:0], wb...)
+			mB, errB = decode(buf)
+		case "shifted":
+			off := 1 + r.IntN(48)
+			buf = append(append(buf[:0], bytes.Repeat([]byte(" "), off)...), wb...)
+			mB, errB = decode(buf[off:])
+		case "zero":
+			clear(buf[:cap(buf)])
+			mB, errB = decode(wb)
+		}
+	case "scanner":
+		lines := [][]byte{append(append([]byte{}, a.wire...), '\n')}
+		for _, l := range append(filler(), b.wire) {
+			lines = append(lines, append(append([]byte{}, l...), '\n'))
+		}
+		sc := bufio.NewScanner(&c19OneLine{lines: lines})
+		sc.Buffer(make([]byte, 0, 4096), 1<<22)
+		for i := 0; sc.Scan(); i++ {
+			m, err := jsonrpc.DecodeMessage(sc.Bytes())
+			if i == 0 {
+				mA, errA = m, err
+			}
+			mB, errB = m, err
+		}
+	case "ioconn":
+		lines := [][]byte{append(append([]byte{}, a.wire...), '\n')}
+		for _, l := range append(filler(), b.wire) {
+			lines = append(lines, append(append([]byte{}, l...), '\n'))
+		}
+		conn := c19NewIOConn(io.NopCloser(&c19OneLine{lines: lines}), c19NopW{})
+		ctx, cancel := context.WithTimeout(context.Background(), c19FrLimit)
+		for i := range lines {
+			m, err := conn.Read(ctx)
+			if i == 0 {
+				mA, errA = m, err
+			}
+			mB, errB = m, err
+			if err != nil {
+				break
+			}
+		}
+		cancel()
+		conn.Close()
+	case "sse":
+		rw := &c19RW{}
+		for _, d := range append(append([][]byte{a.wire}, filler()...), b.wire) {
+			c19WriteEvent(rw, Event{Name: "message", Data: d})
+		}
+		i := 0
+		c19ScanEvents(&c19Chunk{r: bytes.NewReader(rw.buf.Bytes()), rnd: r, size: c19Pick(r, 0, 7, 512, 4096)}, func(e Event, err error) bool {
+			if err != nil {
+				mB, errB = nil, err
+				return false
+			}
+			m, derr := jsonrpc.DecodeMessage(e.Data) // as the SDK's clients do: decoded at once, the event is not kept
+			if i == 0 {
+				mA, errA = m, derr
+			}
+			mB, errB = m, derr
+			i++
+			return true
+		})
+	default:
+		panic("lt path " + c.Path)
+	}
+	// only now A is looked at
+	o.Cls = c19Cls(mA, errA)
+	if errA != nil {
+		return o, in, "decode: " + errA.Error()
+	}
+	if errB == nil && mB != nil {
+		vb := c19ViewOfMsg(mB)
+		o.Later = vb.typ == b.view.typ && c19AllTrue(c19Compare(b.view, vb))
+	}
+	if va := c19ViewOfMsg(mA); va.typ == a.view.typ {
+		o.F = c19Compare(a.view, va)
+	}
+	w2, eerr := jsonrpc.EncodeMessage(mA)
+	if eerr != nil {
+		return o, in, "re-encode: " + eerr.Error()
+	}
+	o.Enc = true
+	o.G = c19Compare(a.view, c19ViewOfWire(w2))
+	return o, in, c19Trunc(w2)
+}
+
+// ---------------------------------------------------------------------------------------------
+// Table 10: a burst of calls through a custom Connection that reuses its read buffer (bufio.Scanner +
+// jsonrpc.DecodeMessage) into a real ServerSession.
+
+type c19LbCase struct {
+	Size   string `json:"size"`
+	ID     string `json:"id"`
+	Flavor string `json:"flavor"`
+	Hold   string `json:"hold"`
+}
+
+type c19LbOut struct {
+	N        int `json:"n"`
+	Answered int `json:"answered"`
+	Intact   int `json:"intact"`
+}
+
+// c19Feed delivers one line for each call of Read, as the harness hands them over.
+type c19Feed struct {
+	ch  chan []byte
+	cur []byte
+}
+
+func (f *c19Feed) Read(p []byte) (int, error) {
+	if len(f.cur) == 0 {
+		l, ok := <-f.ch
+		if !ok {
+			return 0, io.EOF
+		}
+		f.cur = l
+	}
+	n := copy(p, f.cur)
+	f.cur = f.cur[n:]
+	return n, nil
+}
+
+type c19ScanConn struct {
+	sc       *bufio.Scanner
+	allRead  chan struct{} // closed when the session asks for a message after the whole feed has been read
+	closed   chan struct{}
+	once     sync.Once
+	conce    sync.Once
+	mu       sync.Mutex
+	out      [][]byte // what the session wrote
+	want     int      // responses to wait for
+	gotFirst chan struct{}
+	gotAll   chan struct{}
+}
+
+func (c *c19ScanConn) Read(ctx context.Context) (jsonrpc.Message, error) {
+	if c.sc.Scan() {
+		return jsonrpc.DecodeMessage(c.sc.Bytes())
+	}
+	c.once.Do(func() { close(c.allRead) })
+	select {
+	case <-c.closed:
+		return nil, io.EOF
+	case <-ctx.Done():
+		return nil, ctx.Err()
+	}
+}
+
+func (c *c19ScanConn) Write(_ context.Context, m jsonrpc.Message) error {
+	b, err := jsonrpc.EncodeMessage(m)
+	if err != nil {
+		return err
+	}
+	c.mu.Lock()
+	defer c.mu.Unlock()
+	c.out = append(c.out, b)
+	if _, isResp := m.(*jsonrpc.Response); isResp {
+		select { // the first response is the handshake's
+		case <-c.gotFirst:
+		default:
+			close(c.gotFirst)
+		}
+		if c.want--; c.want == 0 {
+			close(c.gotAll)
+		}
+	}
+	return nil
+}
+
+func (c *c19ScanConn) Close() error      { c.conce.Do(func() { close(c.closed) }); return nil }
+func (c *c19ScanConn) SessionID() string { return "" }
+
+type c19ScanTransport struct{ conn *c19ScanConn }
+
+func (t *c19ScanTransport) Connect(context.Context) (Connection, error) { return t.conn, nil }
+
+func c19RunLb(r *rand.Rand, c c19LbCase) (o c19LbOut, note string) {
+	n := 3 + r.IntN(4)
+	if c.Size == "many" {
+		n = 120 + r.IntN(80)
+	}
+	o.N = n
+	hello := [][]byte{
+		[]byte(`{"jsonrpc":"2.0","id":"init","method":"initialize","params":{"protocolVersion":"` + c19Proto2025 + `","capabilities":{},"clientInfo":{"name":"c","version":"1"}}}` + "\n"),
+		[]byte(`{"jsonrpc":"2.0","method":"notifications/initialized"}` + "\n"),
+	}
+	var lines [][]byte
+	args := map[string]string{} // id (JSON text) -> arguments sent under it
+	for i := 0; i < n; i++ {
+		id := strconv.Itoa(100 + i)
+		if c.ID == "str" {
+			id = `"c-` + strconv.Itoa(i) + `"`
+		}
+		a := `{"to":` + c19JS(r, fmt.Sprintf("account-%d-%s", i, c19Flav(r, c.Flavor))) + `,"amount":` + strconv.Itoa(1000+i) + `,"tags":[` + strconv.Itoa(r.IntN(1<<30)) + `,"t` + strconv.Itoa(i) + `"]}`
+		args[id] = a
+		lines = append(lines, []byte(`{"jsonrpc":"2.0","id":`+id+`,"method":"tools/call","params":{"name":"echo","arguments":`+a+`}}`+"\n"))
+	}
+	feed := &c19Feed{ch: make(chan []byte, n+2)}
+	conn := &c19ScanConn{sc: bufio.NewScanner(feed), allRead: make(chan struct{}), closed: make(chan struct{}),
+		want: n + 1, gotFirst: make(chan struct{}), gotAll: make(chan struct{})}
+	server := NewServer(&Implementation{Name: "c19-lb", Version: "1"}, nil)
+	server.AddTool(&Tool{Name: "echo", InputSchema: map[string]any{"type": "object"}}, func(ctx context.Context, req *CallToolRequest) (*CallToolResult, error) {
+		if c.Hold == "held" { // the handlers are slower than the reader
+			select {
+			case <-conn.allRead:
+			case <-ctx.Done():
+				return nil, ctx.Err()
+			}
+		}
+		return &CallToolResult{Content: []Content{&TextContent{Text: string(req.Params.Arguments)}}}, nil
+	})
+	ctx, cancel := context.WithCancel(context.Background())
+	defer cancel()
+	ss, err := server.Connect(ctx, &c19ScanTransport{conn: conn}, nil)
+	if err != nil {
+		return o, "connect: " + err.Error()
+	}
+	// the handshake first, then the whole burst at once
+	for _, l := range hello {
+		feed.ch <- l
+	}
+	select {
+	case <-conn.gotFirst:
+	case <-time.After(c19FrLimit):
+		note = "the handshake was not answered; "
+	}
+	for _, l := range lines {
+		feed.ch <- l
+	}
+	close(feed.ch)
+	select {
+	case <-conn.gotAll:
+	case <-time.After(6 * c19FrLimit):
+		note = "not every call was answered within the time limit; "
+	}
+	conn.mu.Lock()
+	out := append([][]byte{}, conn.out...)
+	conn.mu.Unlock()
+	c19CloseWithin(func() { ss.Close() })
+	seen := map[string]int{}
+	for _, b := range out {
+		var resp struct {
+			ID     json.RawMessage `json:"id"`
+			Method *string         `json:"method"`
+			Result *struct {
+				Content []struct {
+					Text string `json:"text"`
+				} `json:"content"`
+				IsError bool `json:"isError"`
+			} `json:"result"`
+		}
+		if json.Unmarshal(b, &resp) != nil || resp.Method != nil {
+			continue
+		}
+		id := string(resp.ID)
+		want, mine := args[id]
+		if !mine {
+			continue
+		}
+		seen[id]++
+		if seen[id] == 1 && resp.Result != nil && !resp.Result.IsError && len(resp.Result.Content) == 1 && c19JSONEq([]byte(resp.Result.Content[0].Text), []byte(want)) {
+			o.Intact++
+		} else if len(note) < 600 {
+			note += fmt.Sprintf("id %s sent with %s answered %s; ", id, want, c19Trunc(b))
+		}
+	}
+	for _, k := range seen {
+		if k == 1 {
+			o.Answered++
+		}
+	}
+	return
+}
+
+// ---------------------------------------------------------------------------------------------
 
 func c19Load[T any](t *testing.T, dir, name string) []T {
 	f, err := os.Open(filepath.Join(dir, name))
@@ -3187,6 +3963,62 @@ func TestVerif_C19(t *testing.T) {
 	defer cancel()
 
 	t0 := time.Now()
+	// 11. concurrent writers over a non-atomic io.Writer, along the plans of CodecWrite.tla.  First: the scheduler
+	// reads the goroutine states of the whole process, which is cheap while there are few goroutines.
+	type wwLine struct {
+		K string    `json:"k"`
+		C c19WwCase `json:"c"`
+		O c19WwOut  `json:"o"`
+	}
+	for i, c := range c19Load[c19WwCase](t, in, "cases_ww.ndjson") {
+		if c.K < 2 || c.K > 3 || len(c.Chunks) != c.K {
+			t.Fatalf("cases_ww.ndjson: bad case %+v", c)
+		}
+		o, din, note := c19RunWw(rand.New(rand.NewPCG(seed, 11<<32|uint64(i))), c)
+		emit(wwLine{"ww", c, o})
+		detail(din, note)
+	}
+	t.Logf("ww done %v lines=%d", time.Since(t0), line)
+	// 9. lifetime of decoded messages
+	type ltLine struct {
+		K   string    `json:"k"`
+		C   c19LtCase `json:"c"`
+		O   c19LtOut  `json:"o"`
+		Rep int       `json:"rep"`
+	}
+	for _, x := range c19Par(c19Load[c19LtCase](t, in, "cases_lt.ndjson"), reps, seed, 9, func(r *rand.Rand, c c19LtCase, rep int) (res c19Res) {
+		var o c19LtOut
+		var din, dout string
+		func() {
+			defer func() {
+				if p := recover(); p != nil {
+					o, dout = c19LtOut{Cls: "panic"}, fmt.Sprintf("panic: %v", p)
+				}
+			}()
+			o, din, dout = c19RunLt(r, c)
+		}()
+		return c19Res{ltLine{"lt", c, o, rep}, din, dout, !(o.Later && o.Enc && c19AllTrue(o.F) && c19AllTrue(o.G))}
+	}) {
+		emit(x.line)
+		if x.detail {
+			detail(x.in, x.out)
+		}
+	}
+	// 10. bursts through a buffer-reusing connection into a real session
+	type lbLine struct {
+		K   string    `json:"k"`
+		C   c19LbCase `json:"c"`
+		O   c19LbOut  `json:"o"`
+		Rep int       `json:"rep"`
+	}
+	for i, c := range c19Load[c19LbCase](t, in, "cases_lb.ndjson") {
+		for rep := 0; rep < reps; rep++ {
+			o, note := c19RunLb(rand.New(rand.NewPCG(seed, 10<<32|uint64(i*reps+rep))), c)
+			emit(lbLine{"lb", c, o, rep})
+			detail(fmt.Sprintf("burst of %d", o.N), note)
+		}
+	}
+	t.Logf("lt+lb done %v lines=%d", time.Since(t0), line)
 	// 1. messages
 	type msgLine struct {
 		K   string     `json:"k"`
